@@ -7,7 +7,9 @@ import (
 	"encoding/json"
 	"flag"
 	"fmt"
+	"github.com/google/mtail/internal/metrics/datum"
 	"math"
+	"net/http"
 	"net/http/httptest"
 	"sort"
 	"strconv"
@@ -586,7 +588,7 @@ func c22CheckAll(sc *hx.Scraper, cp *c22Case, host string, st *vstat.Stats) *vst
 }
 
 func TestC22(t *testing.T) {
-	st := vstat.New("C22", "stores of 0-5 metrics of every kind/type, 0-3 keys, up to 5 label sets with DISTINCT values and timestamps per label set, label values from a pool without whitespace (formats whose field separators occur in a value are skipped for that store), occasional non-finite floats, histograms with several label sets; random graphite/statsd/collectd prefixes, hostname, prog label on/off; every format's records compared as a multiset with records built by an independent formatter; one case in six also pushes over real sockets to three targets at once (each peer must receive its own format's records, once); non-trivial = a metric with >= 2 label sets whose values differ; distinct by the whole case")
+	st := vstat.New("C22", "stores of 0-5 metrics of every kind/type, 0-3 keys, up to 5 label sets with DISTINCT values and timestamps per label set, label values from a pool without whitespace (formats whose field separators occur in a value are skipped for that store), occasional non-finite floats, histograms with several label sets; random graphite/statsd/collectd prefixes, hostname, prog label on/off; every format's records compared as a multiset with records built by an independent formatter; plus a fixed scenario with a peer that takes 250 ms per record and with two exports overlapping in time; one case in six also pushes over real sockets to three targets at once (each peer must receive its own format's records, once); non-trivial = a metric with >= 2 label sets whose values differ; distinct by the whole case")
 	st.Assumptions = []string{"expected records are produced by formatters written in the harness from the observed wire formats; one record per write for the push formats (captured through the build-tagged hook)", "statsd/collectd records of histograms are outside the statement and ignored"}
 	runRaw := func(raw json.RawMessage) *vstat.Failure {
 		c, err := vstat.JSON[c22Case](raw)
@@ -596,6 +598,15 @@ func TestC22(t *testing.T) {
 		return runC22(c, st)
 	}
 	st.Run(t, runRaw, func() {
+		if shard, _ := vstat.Shard(); shard == 0 {
+			f := vstat.CatchBounded(120*time.Second, c22Fixed)
+			st.Eval()
+			st.Class("fixed:slow-peer-and-overlapping-exports")
+			if f != nil {
+				st.Violate(t, f, nil, "fixed")
+				return
+			}
+		}
 		st.Check(t, func(rt *rapid.T) {
 			var c c22Case
 			defer st.Guard(func() any { return c })
@@ -642,4 +653,121 @@ func TestC22(t *testing.T) {
 			st.Report(rt, runC22(c, st), c)
 		})
 	})
+}
+
+// c22Fixed: two situations the generated stores do not produce.
+//  1. a peer that takes a quarter of a second over every record, for longer
+//     than a second in all: it still gets a record for every label set;
+//  2. two exports overlapping in time (the second one starts while the first
+//     is inside a Write): each client receives its own format's records.
+func c22Fixed() *vstat.Failure {
+	store := metrics.NewStore()
+	sc, err := hx.NewScraper(store)
+	if err != nil {
+		return vstat.Failf("harness", "%v", err)
+	}
+	defer sc.Close()
+	m := metrics.NewMetric("slow_total", "fixed.mtail", metrics.Counter, metrics.Int, "k")
+	for i := 0; i < 6; i++ {
+		d, _ := m.GetDatum(fmt.Sprintf("v%d", i))
+		datum.SetInt(d, int64(10+i), time.Unix(1700000000, 0))
+	}
+	g := metrics.NewMetric("other", "fixed.mtail", metrics.Gauge, metrics.Int)
+	d, _ := g.GetDatum()
+	datum.SetInt(d, 7, time.Unix(1700000000, 0))
+	for _, mm := range []*metrics.Metric{m, g} {
+		if err := store.Add(mm); err != nil {
+			return vstat.Failf("harness", "%v", err)
+		}
+	}
+	count := func(text string) int { return strings.Count(text, "slow_total") }
+	// 1. slow peers
+	sw := &c22SlowWriter{d: 250 * time.Millisecond}
+	sc.Exp.HandleVarz(sw, httptest.NewRequest("GET", "/varz", nil))
+	if n := count(sw.buf.String()); n != 6 {
+		return vstat.Failf("slow-peer-misses-records:varz", "a client taking 250 ms per record got %d of 6 label sets of slow_total:\n%s", n, sw.buf.String())
+	}
+	sw = &c22SlowWriter{d: 250 * time.Millisecond}
+	if err := sc.Exp.VerifWriteSocketMetrics(sw, "graphite"); err != nil {
+		return vstat.Failf("push-error", "%v", err)
+	}
+	if n := count(sw.buf.String()); n != 6 {
+		return vstat.Failf("slow-peer-misses-records:graphite-push", "a peer taking 250 ms per record got %d of 6 label sets of slow_total:\n%s", n, sw.buf.String())
+	}
+	// 2. overlapping exports
+	seq := func(h func(http.ResponseWriter, *http.Request), path string) string {
+		rec := httptest.NewRecorder()
+		h(rec, httptest.NewRequest("GET", path, nil))
+		return rec.Body.String()
+	}
+	// metrics come in the store's map order: compare the records as sets
+	norm := func(text string) string {
+		ls := splitLines(text)
+		sort.Strings(ls)
+		return strings.Join(ls, "\n")
+	}
+	wantVarz, wantGraphite := norm(seq(sc.Exp.HandleVarz, "/varz")), norm(seq(sc.Exp.HandleGraphite, "/graphite"))
+	for _, first := range []string{"varz", "graphite"} {
+		outer := &c22NestingWriter{}
+		inner := httptest.NewRecorder()
+		if first == "varz" {
+			outer.during = func() { sc.Exp.HandleGraphite(inner, httptest.NewRequest("GET", "/graphite", nil)) }
+			sc.Exp.HandleVarz(outer, httptest.NewRequest("GET", "/varz", nil))
+			if norm(outer.buf.String()) != wantVarz || norm(inner.Body.String()) != wantGraphite {
+				return vstat.Failf("overlapping-exports-mixed", "a /graphite request served while a /varz response was being written: /varz client got\n%s\nwant\n%s\n/graphite client got\n%s", outer.buf.String(), wantVarz, inner.Body.String())
+			}
+		} else {
+			outer.during = func() { sc.Exp.HandleVarz(inner, httptest.NewRequest("GET", "/varz", nil)) }
+			sc.Exp.HandleGraphite(outer, httptest.NewRequest("GET", "/graphite", nil))
+			if norm(outer.buf.String()) != wantGraphite || norm(inner.Body.String()) != wantVarz {
+				return vstat.Failf("overlapping-exports-mixed", "a /varz request served while a /graphite response was being written: /graphite client got\n%s\nwant\n%s\n/varz client got\n%s", outer.buf.String(), wantGraphite, inner.Body.String())
+			}
+		}
+	}
+	return nil
+}
+
+// c22SlowWriter takes d over every write.
+type c22SlowWriter struct {
+	d   time.Duration
+	buf strings.Builder
+	hdr http.Header
+}
+
+func (w *c22SlowWriter) Header() http.Header {
+	if w.hdr == nil {
+		w.hdr = http.Header{}
+	}
+	return w.hdr
+}
+func (w *c22SlowWriter) WriteHeader(int) {}
+func (w *c22SlowWriter) Write(p []byte) (int, error) {
+	time.Sleep(w.d)
+	w.buf.Write(p)
+	return len(p), nil
+}
+
+// c22NestingWriter serves another request (during) inside its first Write,
+// before it has looked at the bytes it was given.
+type c22NestingWriter struct {
+	during func()
+	done   bool
+	buf    strings.Builder
+	hdr    http.Header
+}
+
+func (w *c22NestingWriter) Header() http.Header {
+	if w.hdr == nil {
+		w.hdr = http.Header{}
+	}
+	return w.hdr
+}
+func (w *c22NestingWriter) WriteHeader(int) {}
+func (w *c22NestingWriter) Write(p []byte) (int, error) {
+	if !w.done && w.during != nil {
+		w.done = true
+		w.during()
+	}
+	w.buf.Write(p)
+	return len(p), nil
 }
